@@ -879,6 +879,11 @@ func (fr *Frame) run(args []Val, bind []Val, memIn Mem, g *Term) {
 			fr.vals[fv] = bind[i]
 		}
 	}
+	if fr.top && len(bind) == 0 && fn.Parent() != nil {
+		// a closure verified on its own: a captured variable that holds a sibling closure which
+		// itself captures nothing (assigned exactly once in the parent) is that function
+		fr.bindSiblingClosures()
+	}
 	// reverse post-order ignoring back edges
 	order := fr.rpo()
 	fr.order = order
@@ -1491,4 +1496,58 @@ func (p *Program) initIntConst(g *ssa.Global) *Term {
 		fmt.Fprintf(os.Stderr, "INITCONST %s = %v (stores %d, known %d)\n", g.Name(), vals[g], p.storeCount[g], len(vals))
 	}
 	return vals[g]
+}
+
+func (fr *Frame) bindSiblingClosures() {
+	fn := fr.fn
+	parent := fn.Parent()
+	var mine *ssa.MakeClosure
+	for _, b := range parent.Blocks {
+		for _, in := range b.Instrs {
+			if mc, ok := in.(*ssa.MakeClosure); ok && mc.Fn == fn {
+				mine = mc
+			}
+		}
+	}
+	if mine == nil {
+		return
+	}
+	for i, fv := range fn.FreeVars {
+		if i >= len(mine.Bindings) {
+			break
+		}
+		pt, ok := fv.Type().Underlying().(*types.Pointer)
+		if !ok {
+			continue
+		}
+		if _, isSig := pt.Elem().Underlying().(*types.Signature); !isSig {
+			continue
+		}
+		var target *ssa.Function
+		n := 0
+		for _, b := range parent.Blocks {
+			for _, in := range b.Instrs {
+				if st, ok := in.(*ssa.Store); ok && st.Addr == mine.Bindings[i] {
+					n++
+					switch v := st.Val.(type) {
+					case *ssa.MakeClosure:
+						if len(v.Bindings) == 0 {
+							target, _ = v.Fn.(*ssa.Function)
+						}
+					case *ssa.Function:
+						target = v
+					}
+				}
+			}
+		}
+		if n != 1 || target == nil {
+			continue
+		}
+		c := fr.ex.newCell(pt.Elem(), "closure:"+target.Name())
+		if fr.ex.funcCells == nil {
+			fr.ex.funcCells = map[*Cell]FuncV{}
+		}
+		fr.ex.funcCells[c] = FuncV{Fn: target}
+		fr.vals[fv] = PtrV{Cell: c, Elem: pt.Elem()}
+	}
 }
